@@ -48,14 +48,19 @@ Inductive ord_body :=
 | OSingle (inc : list bool) (eq : option ord_match)
 | OMulti (inc : list bool) (body_equal : option ord_match) (s : strategy).
 
+(* every variant gets an arm: a wildcard arm doing nothing, or one zeroizing the listed fields *)
+Inductive zarm := ZWild | ZFields (fs : list (nat * bool)).   (* position, fqs *)
+
 Inductive zeroize_body :=
 | ZEmpty
-| ZMatch (arms : list (option (list (nat * bool)))).   (* position, fqs *)
+| ZMatch (arms : list zarm).
+
+Inductive darm := DWild | DFields (fs : arm).
 
 Inductive drop_body :=
 | DrEmpty
 | DrDelegate (arms : list bool)            (* one `Zeroize::zeroize(self);` per true *)
-| DrMatch (arms : list (option arm)).
+| DrMatch (arms : list darm).
 
 Inductive body :=
 | BClone (b : clone_body)
